@@ -12,15 +12,27 @@ ASSUMPTIONS = [
     "(4) connect_implicitly_mapped_ports (positional map) and parse_port_map_single (named map; create_or_update_port_on_instance "
     "stubbed to return the instance's pins of the port) for an expression of 1 or 2 bits on a two-bit port: bit k of the expression, "
     "counted from its least significant end, joins port bit k; port bits above the expression stay open",
-    "outside: module-level glue, header/body port merging, late growth of cables (create_or_update_cable), parameters, attributes, "
+    "(5) kernel (E2, CrossHair): the real parse_module_body (+ parse_star_property, parse_cable_declaration; tokens from the real "
+    "TokenFactory fed character by character) on up to three (* *) groups in front of one wire declaration followed by a bare reg: "
+    "three keys, each absent or in any group, bare or with a symbolic value (|v| <= 2 over 'a1_'); the wire gets the union of all "
+    "groups in order, the following item none.  One job per group structure (quick: 11 of the 64 structures, thorough: all)",
+    "outside: module-level glue, header/body port merging, late growth of cables (create_or_update_cable), parameters, attributes on ports and instances, "
     "black-box election, whole files",
 ]
 
 
+# structure cubes (g0, g1, g2): which attribute group each key sits in (0 = absent); quick = 11 cubes with one, two and three
+# groups in every order, thorough = all 64
+_Q = [(1, 2, 0), (2, 1, 0), (1, 0, 2), (0, 1, 2), (1, 3, 0), (0, 2, 3), (1, 0, 0), (0, 0, 0), (1, 2, 3), (3, 2, 1), (1, 2, 1)]
+
+
 def jobs(tier):
+    from vf.props.C13 import e2job
     return [dict(name="C06/reader-kernels", engine="E1/symheap", module="vf.e1.verilog_jobs",
                  func="reader_kernels_job", timeout=1500, args=dict(tier=tier)),
             dict(name="C06/concat-read", engine="E1/symheap", module="vf.e1.verilog_jobs",
                  func="concat_read_job", timeout=1500, args=dict(tier=tier))] + [
             dict(name="C06/port-map/%s" % k, engine="E1/symheap", module="vf.e1.verilog_jobs", func="port_map_job",
-                 timeout=1500, args=dict(tier=tier, kind=k)) for k in ("positional", "named")]
+                 timeout=1500, args=dict(tier=tier, kind=k)) for k in ("positional", "named")] + [
+            e2job("C06", "c06", "h_attribute_groups_reach_the_item_they_precede", 600 if tier == "quick" else 1500, tier,
+                  {"VF_K": k}, "[groups=%d]" % k) for k in ([a + 4 * b + 16 * c for a, b, c in _Q] if tier == "quick" else range(64))]
